@@ -143,8 +143,7 @@ func c06(c *Ctx) {
 		})
 	}
 	if imt := p.Fn("internal/patch", "InstanceMethodTrampoline"); imt != nil {
-		pt := p.NamedType("internal/patch", "patch")
-		ov := structField(pt, "originValue")
+		ov := p.patchRoles().POrigVal
 		okSrc := false
 		eachInstr(imt, func(i ssa.Instruction) {
 			if st, ok := i.(*ssa.Store); ok {
